@@ -4,6 +4,7 @@ import binascii, re
 import gen_c17_csrc as CS
 import gen_c17_cfg as CFG
 import gen_c17_cgen as CG
+import gen_c17_decl as DCL
 
 MIX_OPT_CLASSES = True
 def debug_ok(src):
@@ -303,7 +304,13 @@ class Scen:
         n = self.name()
         extra = []
         q = rng.random()
-        if q < 0.3:
+        if q < 0.14:
+            # a generated unit of declaration histories: identifiers declared again and again (incomplete then complete
+            # array types, tentative definitions, extern / static / definition in every order, tags completed later,
+            # typedef repeats, block-scope externs: every branch of c2mir's def_symbol; tools/gen_c17_decl.py)
+            tag, src, need = DCL.c_redecl_unit(rng)
+            kind = 'c:redecl'
+        elif q < 0.3:
             # a generated unit: every expression kind x operand type combination (conditionals over void / qualified
             # pointers, alloca, label addresses ...), goto into loops, computed goto (tools/gen_c17_cgen.py)
             tag, src, need = CG.c_unit(rng)
@@ -353,12 +360,26 @@ class Scen:
         k = rng.random()
         if k < 0.5:
             self.add_c_module()
-        elif k < 0.57:
+        elif k < 0.55:
             n = self.name()
             self.lines.append('scan ' + hexs(stress_module(rng, n, rng.choice([20, 60, 150]))))
             self._new_func('f' + n, 'stress')
             self.kinds.append('stress')
-        elif k < 0.69:
+        elif k < 0.66:
+            # a module of declaration histories: export / forward before and after the definitions, repeated, in every
+            # order, imports repeated, names used while only declared -- as MIR text or through the construction API
+            n = self.name()
+            shape = rng.choice([None, None, 'export-after', 'forward-first'])
+            ops, fs = DCL.decl_module(rng, n, shape)
+            if rng.random() < 0.5:
+                self.lines.append('scan ' + hexs(DCL.to_text(ops, n, rng)))
+                self.kinds.append('decl-text')
+            else:
+                self.lines.append('apim %s %s' % (n, DCL.to_api(ops)))
+                self.kinds.append('decl-api')
+            self._new_func('f' + n, 'decl')
+            self.kinds.append('decl-' + (shape or 'random'))
+        elif k < 0.74:
             # generated functions with arbitrary control-flow graphs (irreducible / nested / overlapping loops, switch,
             # indirect jumps, unreachable blocks): the generator's CFG, loop-tree and SSA code at every level
             n = self.name()
@@ -613,6 +634,18 @@ def fixed_scenarios():
                 x = nm()
                 L.append('c2m u%s.c %s' % (x, hexs(CG.c_unit(_r.Random(2000 + 10 * len(out) + j))[1].replace('@N@', x))))
                 fs.append('f' + x)
+            # declaration histories: two MIR modules (one as text, one through the API; an export repeated after the
+            # exported definition, a forward before everything) and two C units of redeclarations
+            for j, shape in enumerate(['export-after', 'forward-first']):
+                x = nm()
+                r_ = _r.Random(3000 + 10 * len(out) + j)
+                ops, _fs = DCL.decl_module(r_, x, shape)
+                L.append('scan ' + hexs(DCL.to_text(ops, x, r_)) if (j + len(out)) % 2 == 0 else 'apim %s %s' % (x, DCL.to_api(ops)))
+                fs.append('f' + x)
+            for j in range(2):
+                x = nm()
+                L.append('c2m u%s.c %s' % (x, hexs(DCL.c_redecl_unit(_r.Random(4000 + 10 * len(out) + j))[1].replace('@N@', x))))
+                fs.append('f' + x)
             L += ['api 900 1', 'output', 'write', 'read' if False else 'fwrite', 'load', 'gen_init', 'opt %d' % lvl,
                   'link ' + iface]
             fs.append('apif900')
@@ -717,6 +750,10 @@ def valid(lines):
             s['mods'].append(re.findall(r'^(\w+):\s+func', txt, re.M))
         elif cmd == 'api':
             s['mods'].append(['apif' + a1])
+        elif cmd == 'apim':
+            if a1 is None or a2 is None:
+                return False
+            s['mods'].append(['f' + a1] + re.findall(r'\bF:(g\w+):', a2))
         elif cmd in ('write', 'fwrite'):
             if 'lazybb' in s['fiface'].values():
                 return False
